@@ -551,3 +551,68 @@ Lemma not_forgotten : forall es i,
   st_get (s_store s) i <> None ->
   In i (qids_of (s_queued s)) \/ In i (all_ids (s_tasks s)).
 Proof. intros es i s Hs. apply (t_tracked s (run_T es init init_T)). exact Hs. Qed.
+
+(* ---------- restart: a fresh queue over a non-empty store (C04's "resumes retrying") ---------- *)
+Definition start (st : store) (nx : id) : state :=
+  mkState st [] [] [] [] SRun false 0 nx [] [] [] [] [].
+Definition load_events (st : store) : list event := map (fun e => EAnnounce (m_ts (snd e)) (fst e)) st.
+
+Record loading (st : store) (nx : id) (s : state) : Prop := mkLoading {
+  ld_store : s_store s = st; ld_tasks : s_tasks s = []; ld_active : s_active s = [];
+  ld_removed : g_removed s = []; ld_next : s_next s = nx;
+  ld_qids : forall j, mem j (s_qids s) = true -> In j (qids_of (s_queued s)) }.
+
+Lemma loading_announce : forall st nx s ts i, loading st nx s ->
+  loading st nx (step s (EAnnounce ts i)) /\ In i (qids_of (s_queued (step s (EAnnounce ts i)))) /\
+  (forall j, In j (qids_of (s_queued s)) -> In j (qids_of (s_queued (step s (EAnnounce ts i))))).
+Proof.
+  intros st nx s ts i [L1 L2 L3 L4 L5 L6]. cbn [step]. split; [|split].
+  - constructor; rewrite ?aq_store, ?aq_tasks, ?aq_active, ?aq_removed, ?aq_next; auto. apply aq_qids_ok. exact L6.
+  - apply aq_tracks; [exact L6|rewrite L3; reflexivity].
+  - intros j Hj. apply aq_queued_In. exact Hj.
+Qed.
+
+Lemma st_get_In : forall (st : store) i, st_get st i <> None -> In i (map fst st).
+Proof.
+  induction st as [|[j m] st IH]; intros i H; cbn in *; [contradiction|].
+  destruct (N.eqb_spec i j); [left; symmetry; assumption|right; apply IH; exact H].
+Qed.
+
+Lemma load_all_queued : forall st nx es s, loading st nx s ->
+  loading st nx (run (map (fun e : id * msg => EAnnounce (m_ts (snd e)) (fst e)) es) s) /\
+  (forall i, In i (map fst es) \/ In i (qids_of (s_queued s)) ->
+             In i (qids_of (s_queued (run (map (fun e : id * msg => EAnnounce (m_ts (snd e)) (fst e)) es) s)))).
+Proof.
+  intros st nx es. induction es as [|[j m] es IH]; intros s L; cbn [map run fold_left].
+  - split; [exact L|]. intros i [[]|H]. exact H.
+  - destruct (loading_announce st nx s (m_ts m) j L) as [L' [Hj Hmono]]. cbn [fst snd].
+    destruct (IH _ L') as [L'' Hall]. split; [exact L''|].
+    intros i [[Hi|Hi]|Hi]; apply Hall.
+    + right. cbn in Hi. subst i. exact Hj.
+    + left. exact Hi.
+    + right. apply Hmono. exact Hi.
+Qed.
+
+(* after the start-up load of a store whose ids are below the allocation counter, the queue's
+   invariant holds and every stored message is in the timetable: every theorem about
+   continuations (not forgotten, never early, wake-up, ...) applies to the restarted queue *)
+Lemma restart_resumes : forall st nx, (forall i, st_get st i <> None -> i < nx) ->
+  let s := run (load_events st) (start st nx) in
+  Tinv s /\ s_store s = st /\ forall i, st_get st i <> None -> In i (qids_of (s_queued s)).
+Proof.
+  intros st nx Hlt s.
+  assert (L0 : loading st nx (start st nx)) by (constructor; cbn; auto; discriminate).
+  destruct (load_all_queued st nx st (start st nx) L0) as [[L1 L2 L3 L4 L5 L6] Hall]. fold (load_events st) in *. fold s in L1, L2, L3, L4, L5, L6, Hall.
+  assert (Hq : forall i, st_get st i <> None -> In i (qids_of (s_queued s))).
+  { intros i Hi. apply Hall. left. apply st_get_In. exact Hi. }
+  split; [|split; [exact L1|exact Hq]].
+  constructor; unfold stored; rewrite ?L1, ?L2, ?L3, ?L4, ?L5.
+  - exact Hlt.
+  - intros i [].
+  - intros t [].
+  - intros i [].
+  - intros t [].
+  - intros i Hi. discriminate.
+  - exact L6.
+  - intros i Hi. left. apply Hq. exact Hi.
+Qed.
